@@ -201,6 +201,9 @@ def run(ctx, pid):
         if variant == "fill":      # 6 producers x 4 messages, the consumer starts only after the producers are done
             n = 400 if quick else 5000
             ctx.run([exe, "stress", kind + "_fill", str(cap), "6", "4", str(n), str(ctx.seed * 777 + cap), t], timeout=1800)
+        elif variant == "storm":   # 8 producers spin on Enqueue (rejections unrecorded) against a slow consumer: all of them see a freed slot at once
+            n = 40 if quick else 800
+            ctx.run([exe, "stress", kind + "_storm", str(cap), "8", "12", str(n), str(ctx.seed * 781 + cap), t], timeout=3000)
         else:                      # churn: 8 producers retry rejected messages while a slow consumer frees one slot at a time
             n = 30 if quick else 600
             ctx.run([exe, "stress", kind + "_churn", str(cap), "8", "12", str(n), str(ctx.seed * 779 + cap), t], timeout=3000)
@@ -221,6 +224,7 @@ def run(ctx, pid):
 
     fill_futs = [pool.submit(fill_one, k, c, d) for k, c, d in (("bprio", 3, 3), ("bstable", 3, 3), ("nbring", 3, 4))]
     fill_futs += [pool.submit(fill_one, k, c, d, "churn") for k, c, d in (("bprio", 3, 3), ("bstable", 3, 3))]
+    fill_futs += [pool.submit(fill_one, k, c, d, "storm") for k, c, d in (("bprio", 3, 3), ("bstable", 3, 3), ("nbring", 3, 4))]
 
     # ------------------------------------------------------------------ 3. spec -> code: Mpsc edge cover on four kinds
     d = f_dump_m.result()
